@@ -511,8 +511,8 @@ static Token *paste(Token *lhs, Token *rhs) {
 
 static bool has_varargs(MacroArg *args) {
   for (MacroArg *ap = args; ap; ap = ap->next)
-    if (!strcmp(ap->name, "__VA_ARGS__"))
-      return ap->tok->kind != TK_EOF;
+    if (ap->is_va_args)
+      return preprocess2(add_hideset(ap->tok, NULL))->kind != TK_EOF;
   return false;
 }
 
@@ -609,7 +609,7 @@ static Token *subst(Token *tok, MacroArg *args) {
     if (equal(tok, "__VA_OPT__") && equal(tok->next, "(")) {
       MacroArg *arg = read_macro_arg_one(&tok, tok->next->next, true);
       if (has_varargs(args))
-        for (Token *t = arg->tok; t->kind != TK_EOF; t = t->next)
+        for (Token *t = subst(arg->tok, args); t->kind != TK_EOF; t = t->next)
           cur = cur->next = t;
       tok = skip(tok, ")");
       continue;
